@@ -17,9 +17,11 @@ Definition make_ws_frame_header (fin r1 r2 r3 : bool) (opcode plen : N) (masked 
         else if payload =? 127 then be_put 8 plen else [])
     ++ (if masked then le_put 4 (u32 key) else []).
 
-(* BasicHttpSubSession.Write(b) with IsWebSocket: two writes, header then b *)
+(* BasicHttpSubSession.Write(b) with IsWebSocket: header and b are copied into
+   one buffer and handed to the connection as ONE write (since the repair of
+   F-25, property C15; before it they were two writes, header then b) *)
 Definition ws_write_units (b : bytes) : list bytes :=
-  [make_ws_frame_header true false false false 2 (lenN b) false 0; b].
+  [make_ws_frame_header true false false false 2 (lenN b) false 0 ++ b].
 Definition ws_write (b : bytes) : bytes := concat (ws_write_units b).
 Definition plain_write (b : bytes) : bytes := b.
 
